@@ -103,7 +103,7 @@ type c19Case struct {
 	uuid    string
 	g       *c19Group
 	entered bool
-	until    map[string]int64
+	until    map[string][2]int64
 	invStart time.Time
 }
 
@@ -144,14 +144,16 @@ func c19Meta(c *c19Case, m message.Metadata) []jv {
 		if k == delay.DelayedUntilKey && c != nil {
 			// RFC3339 (whole seconds) -> distance from the start of the invocation that first showed
 			// this value; the model's MUntil d is compared with a tolerance of 3 s
+			// the value t (whole seconds) was written as (moment of the call)+d at some moment between the
+			// start of this invocation and now: t-now <= d < t-invStart+1s.  Remembered per raw string.
 			if u, ok := c.until[v]; ok {
-				res = append(res, jv{c19In.ID(k), jv{"u", u}})
+				res = append(res, jv{c19In.ID(k), jv{"u", u[0], u[1]}})
 				continue
 			}
 			if t, err := time.Parse(time.RFC3339, v); err == nil {
-				u := int64(t.Sub(c.invStart))
+				u := [2]int64{int64(t.Sub(time.Now().UTC())) - int64(time.Second), int64(t.Sub(c.invStart)) + 2*int64(time.Second)}
 				c.until[v] = u
-				res = append(res, jv{c19In.ID(k), jv{"u", u}})
+				res = append(res, jv{c19In.ID(k), jv{"u", u[0], u[1]}})
 				continue
 			}
 		}
@@ -564,7 +566,7 @@ func (g *c19Gen) call(c *c19Case, kind int) c19Call {
 func (g *c19Gen) newCase(grp *c19Group, gi, flight int, mws []c19Mw, focusDelay bool) *c19Case {
 	r := g.r
 	g.next++
-	c := &c19Case{Group: gi, Flight: flight, Mws: mws, errs: map[error]jv{}, fresh: map[*message.Message]int{}, g: grp, until: map[string]int64{}, invStart: time.Now().UTC(),
+	c := &c19Case{Group: gi, Flight: flight, Mws: mws, errs: map[error]jv{}, fresh: map[*message.Message]int{}, g: grp, until: map[string][2]int64{}, invStart: time.Now().UTC(),
 		uuid: fmt.Sprintf("in-%d", g.next)}
 	c.msg = message.NewMessage(c.uuid, []byte("consumed"))
 	c.base, c.cancel = context.WithCancel(context.Background())
@@ -650,28 +652,39 @@ func c19RunGroup(g *c19Gen, gi int, mws []c19Mw, flight int, focusDelay bool) []
 // ---- Throttle: handler start times through one value
 
 type c19Thr struct {
-	Count    int64   `json:"count"`
-	Duration int64   `json:"duration"`
-	Workers  int     `json:"workers"`
-	Starts   []int64 `json:"starts"`
+	Count    int64     `json:"count"`
+	Duration int64     `json:"duration"`
+	Workers  int       `json:"workers"`
+	Starts   [][]int64 `json:"starts"` // per worker, in call order
+	First    int64     `json:"first"`  // before the first call entered the middleware
+	Last     int64     `json:"last"`   // the latest recorded start
+	N        int       `json:"n"`
 }
 
 func c19Throttle(r *rand.Rand, count int64, dur time.Duration, workers, n int) c19Thr {
 	t := middleware.NewThrottle(count, dur)
 	t0 := time.Now()
 	var mu sync.Mutex
-	res := c19Thr{Count: count, Duration: int64(dur), Workers: workers}
-	h := t.Middleware(func(msg *message.Message) ([]*message.Message, error) {
-		d := int64(time.Since(t0))
-		mu.Lock()
-		res.Starts = append(res.Starts, d)
-		mu.Unlock()
-		return nil, nil
-	})
+	res := c19Thr{Count: count, Duration: int64(dur), Workers: workers, Starts: make([][]int64, workers)}
+	mk := func(w int) message.HandlerFunc {
+		return t.Middleware(func(msg *message.Message) ([]*message.Message, error) {
+			d := int64(time.Since(t0))
+			mu.Lock()
+			res.Starts[w] = append(res.Starts[w], d)
+			if d > res.Last {
+				res.Last = d
+			}
+			res.N++
+			mu.Unlock()
+			return nil, nil
+		})
+	}
 	var wg sync.WaitGroup
 	per := n / workers
+	res.First = int64(time.Since(t0))
 	for w := 0; w < workers; w++ {
 		wg.Add(1)
+		h := mk(w)
 		go func() {
 			defer wg.Done()
 			for i := 0; i < per; i++ {
@@ -680,7 +693,6 @@ func c19Throttle(r *rand.Rand, count int64, dur time.Duration, workers, n int) c
 		}()
 	}
 	wg.Wait()
-	sort.Slice(res.Starts, func(i, j int) bool { return res.Starts[i] < res.Starts[j] })
 	return res
 }
 
